@@ -89,7 +89,7 @@ MIN_MONITORS = {"*": dict({c: 1 for c in _CONTRACTS},
                              "views.edge_buffed": 1,
                              "blurring.error_demanded": 1, "blurring.no_spurious_error": 1, "blurring.mask": 1,
                              "blurring_grid.error_demanded": 1, "blurring_grid.no_spurious_error": 1,
-                             "blurring_grid.coordinates": 1})}
+                             "blurring_grid.coordinates": 1, "history.views_after_edit": 20})}
 
 PAD_INNER = {"quick": [(h, w) for h in (1, 2, 3) for w in (1, 2, 3)] + [(1, 4), (4, 1), (2, 4), (4, 2)],
              "thorough": [(h, w) for h in (1, 2, 3) for w in (1, 2, 3)] + [(1, 4), (4, 1), (2, 4), (4, 2), (3, 4), (4, 3)]}
@@ -464,6 +464,24 @@ def check_mask(ctx, tag, m, rng, kernels=KERNELS):
         nleave += bool(leaves)
         nonsq_fit = nonsq_fit or (not leaves and k[0] != k[1])
     ctx.check(np.array_equal(_np(mask), m), "input_mask_untouched", mask=m, got=lambda: _np(mask))
+    if tag == "rand" and int((~m).sum()) >= 2:
+        # history: the views were all read above; now the mask is edited in place (Mask2D.__setitem__) / copied and edited,
+        # and every view must denote the pixel sets of the mask *as it is now* (stale index tables would show here)
+        un = np.argwhere(~m)
+        y, x = (int(v) for v in un[int(rng.integers(len(un)))])
+        m2 = m.copy()
+        m2[y, x] = True
+        ok, _ = ctx.guarded("edit.no_exception", lambda: mask.copy().__setitem__((y, x), True))
+        cp = mask.copy()
+        cp[y, x] = True
+        must2, mustnot2, walk2, _ = refs(m2)
+        ctx.monitors["history.views_after_edit"] += 1
+        check_sets(ctx, m2, cp, geometry, centres, must2, mustnot2, walk2)           # edited copy
+        check_sets(ctx, m, mask, geometry, centres, must, mustnot, walk)              # the source must be unaffected
+        mask[y, x] = True
+        ctx.check(np.array_equal(_np(mask), m2), "edit.applied", mask=m2, got=lambda: _np(mask))
+        check_sets(ctx, m2, mask, geometry, centres, must2, mustnot2, walk2)         # edited in place after all views were read
+        check_blurring(ctx, m2, mask, geometry, centres, (3, 3))
     cls = classes_of(m, must, mustnot, walk)
     cls.append("src:" + tag)
     if nleave:
